@@ -267,6 +267,7 @@ func verifyFieldGuard(p *Program, fn *ssa.Function, spec fieldFactSpec) (bool, s
 	needHi := spec.hi != posInf
 	gotLo, gotHi := !needLo, !needHi
 	var where []string
+	condWhy := ""
 	for _, b := range fn.Blocks {
 		ifi, ok := b.Instrs[len(b.Instrs)-1].(*ssa.If)
 		if !ok {
@@ -303,6 +304,12 @@ func verifyFieldGuard(p *Program, fn *ssa.Function, spec fieldFactSpec) (bool, s
 				op = bo.Op
 			}
 		} else {
+			continue
+		}
+		// the guard must apply to every instance: it may only be conditional on loop
+		// conditions, on other validation branches, and on tests of the same field
+		if why := guardConditionalOn(p, fn, b, spec); why != "" {
+			condWhy = why
 			continue
 		}
 		// which successor rejects?
@@ -355,7 +362,65 @@ func verifyFieldGuard(p *Program, fn *ssa.Function, spec fieldFactSpec) (bool, s
 	if !gotHi {
 		miss += " upper bound"
 	}
+	if condWhy != "" {
+		return false, "no unconditional rejecting guard for" + miss + " in " + shortFn(fn) + ": " + condWhy
+	}
 	return false, "no rejecting guard for" + miss + " in " + shortFn(fn)
+}
+
+// guardConditionalOn returns a description if the guard block is control
+// dependent on a condition that is neither a loop condition, nor a validation
+// branch (one side rejects), nor a test of the guarded field itself; "" if the
+// guard applies unconditionally.
+func guardConditionalOn(p *Program, fn *ssa.Function, g *ssa.BasicBlock, spec fieldFactSpec) string {
+	f := factsOf(fn)
+	base := strings.TrimSuffix(spec.field, "*")
+	for _, c := range f.transitiveCDeps(g, true) {
+		at := c.At
+		// accumulated-error protocol: "if s.err != nil { return }" at entry
+		if bo, ok := c.V.(*ssa.BinOp); ok {
+			if fx, okx := loadedField(bo.X); okx && fx == "app.strConvAccErr.err" {
+				continue
+			}
+		}
+		// loop condition: the branch block is a loop header (some predecessor is dominated by it)
+		isLoop := false
+		for _, pr := range at.Preds {
+			if at.Dominates(pr) {
+				isLoop = true
+			}
+		}
+		if isLoop {
+			continue
+		}
+		// range-over-slice loops test the condition in the header's successor; accept conditions whose block is in a loop and whose other side leaves the loop
+		// validation branch: one successor rejects
+		rej := false
+		for _, s := range at.Succs {
+			if rejects(p, s, spec.kind) || rejects(p, s, "errret") {
+				rej = true
+			}
+		}
+		if rej {
+			continue
+		}
+		// test of the same field (nil test of the pointer, or another range test)
+		if bo, ok := c.V.(*ssa.BinOp); ok {
+			fx, okx := loadedField(bo.X)
+			fy, oky := loadedField(bo.Y)
+			if (okx && (fx == base || fx == spec.field)) || (oky && (fy == base || fy == spec.field)) {
+				continue
+			}
+		}
+		// comma-ok of a range Next (for range loops)
+		if ex, ok := c.V.(*ssa.Extract); ok {
+			if _, isNext := ex.Tuple.(*ssa.Next); isNext {
+				continue
+			}
+		}
+		return "the guard at " + p.pos(g.Instrs[len(g.Instrs)-1].Pos()) + " is only reached under the condition " + describe(c.V) + " (" + p.pos(c.V.Pos()) + "), so instances that skip it are not validated"
+	}
+	return ""
 }
 
 func negateOp(op token.Token) token.Token {
